@@ -12,7 +12,9 @@ RULE = ("grid: operation x stored object type (8 kinds incl. RSA pair, split key
         "parameter menu (valid, absent-optional, inapplicable-to-type, unknown / x- attribute name, every attribute "
         "name of the rule table in both request forms, unsupported algorithm / mode / padding / derivation method, "
         "odd IV / tag / data lengths) with the REAL cryptography backend, whose answers are recorded and handed to "
-        "the Lean model as its oracle; quick samples the grid, thorough runs it completely; plus seeded histories; "
+        "the Lean model as its oracle; quick samples the grid, thorough runs it completely; plus seeded histories and "
+        "scripted batches [an item of any operation, reads included; an item naming no identifier, for each of the 14 "
+        "placeholder-reading operations]; "
         "non-trivial = every grid cell; distinct = distinct (request, outcome)")
 ASSUMPTIONS = ["ill-formed requests are outside the property: Query without a query function, DeriveKey without a "
                "base object, payload fields the protocol makes mandatory left out"]
@@ -322,6 +324,10 @@ def run(ctx):
     ctx.coverage["evaluations"] += st.items
     ctx.coverage["distinct_nontrivial"] += len(st.distinct)
     ctx.coverage["grid_divergences"] = len(divs)
+    # batches [any operation X; an item that names no identifier]: whatever X left in the ID placeholder, the follower is
+    # answered with success or a specific error
+    engine_check.scenario_run(ctx, "scen_engine.placeholder_follow_builder", MONITORS, nontrivial, RULE, 24, 400, 12,
+                              "placeholder_follower_part", seed_base=830000)
     dom, outside = theorem_domain(ctx, grid)
     ctx.coverage["theorem_domain"] = dom
     ctx.coverage["items_outside_theorem_domain_samples"] = outside
